@@ -106,7 +106,8 @@ def okl_job(comm, cfg):
                                point_estimates=cfg["point_estimates"], initial_position=pos, comm=comm,
                                output_directory=outdir, return_final_position=True,
                                plot_energy_history=False, plot_minisanity_history=False)
-    out = [_hb(mean)] + [_hb(s) for s in sl.iterator()]
+    # sample count, every sample, and the average (allreduce_sum over possibly empty leading tasks)
+    out = [_hb(mean), b"n=%d" % int(sl.n_samples)] + [_hb(s) for s in sl.iterator()] + [_hb(sl.average())]
     return {"hash": hashlib.sha256(b"\0".join(out)).hexdigest(), "n": int(sl.n_samples)}
 
 
@@ -143,6 +144,39 @@ def hist_job(comm, cfg):
             "roundtrip_ok": not any(o.startswith(b"LOADED-DIFFERS") for o in out)}
 
 
+def empty_job(comm, cfg):
+    """A distributed list whose LEADING tasks hold no sample (as after a MAP iteration, or any uneven
+    distribution): n_samples, iterator, average, sample_stat and a save/load round trip must be the
+    single-process results bit for bit."""
+    import warnings
+    import nifty.cl as ift
+    warnings.simplefilter("ignore")
+    ift.logger.setLevel("ERROR")
+    dom = ift.makeDomain({"a": ift.RGSpace(3), "b": ift.UnstructuredDomain(2)})
+    rng = np.random.default_rng(cfg["seed"])
+    n = cfg["n"]
+    flds = [ift.MultiField.from_dict({"a": ift.Field.from_raw(dom["a"], rng.normal(size=3)),
+                                      "b": ift.Field.from_raw(dom["b"], rng.normal(size=2))}) for _ in range(n)]
+    ntask = 1 if comm is None else comm.Get_size()
+    rank = 0 if comm is None else comm.Get_rank()
+    # the first `lead` tasks are empty (at most ntask-1), the samples go to the remaining tasks
+    lead = min(cfg["lead"], ntask - 1)
+    owners = [lead + (i * (ntask - lead)) // n for i in range(n)]
+    mine = [f for f, o in zip(flds, owners) if o == rank]
+    sl = ift.SampleList(mine, comm=comm, domain=dom)
+    out = [b"n=%d" % int(sl.n_samples)] + [_hb(s) for s in sl.iterator()] + [_hb(sl.average())]
+    if sl.n_samples > 1:
+        m, v = sl.sample_stat()
+        out += [_hb(m), _hb(v)]
+    op = ift.ScalingOperator(dom, 1.) ** 2
+    out.append(_hb(sl.average(op)))
+    base = os.path.join(cfg["dir"], "lst")
+    sl.save(base, overwrite=True)
+    back = ift.SampleList.load(base, comm=comm)
+    out += [b"loaded n=%d" % int(back.n_samples)] + [_hb(s) for s in back.iterator()] + [_hb(back.average())]
+    return {"hash": hashlib.sha256(b"\0".join(out)).hexdigest(), "n": int(sl.n_samples)}
+
+
 def err_job(comm, cfg):
     """Error path under MPI: a save with overwrite=False into a directory that already holds ONE of
     the target files fails on the task that owns this file only; it must fail on ALL tasks, with the
@@ -175,19 +209,19 @@ def err_job(comm, cfg):
     return {"hash": outcome, "n": int(sl.n_samples), "outcome": outcome}
 
 
-JOBS = {"kl": kl_job, "okl": okl_job, "hist": hist_job, "err": err_job}
+JOBS = {"kl": kl_job, "okl": okl_job, "hist": hist_job, "err": err_job, "empty": empty_job}
 
 
 def run_cfg(kind, cfg, ntask, timeout):
     c = dict(cfg)
     if c.get("outdir"):
         c["outdir"] = os.path.join(c["outdir"], "nt%d" % ntask)
-    if kind in ("hist", "err"):
-        c["dir"] = os.path.join(c["dir"], "%s%d_%s_nt%d" % (kind, c["seed"], c.get("stale", ""), ntask))
+    if kind in ("hist", "err", "empty"):
+        c["dir"] = os.path.join(c["dir"], "%s%d_%s_nt%d" % (kind, c["seed"], c.get("stale", c.get("lead", "")), ntask))
         shutil.rmtree(c["dir"], ignore_errors=True)
         os.makedirs(c["dir"])
     res = fp.run(ntask, JOBS[kind], c, timeout=timeout)
-    if kind in ("hist", "err"):
+    if kind in ("hist", "err", "empty"):
         shutil.rmtree(c["dir"], ignore_errors=True)
     return [{"status": st, "val": (v if st == "ok" else str(v)[-400:])} for st, v in res]
 
@@ -274,7 +308,7 @@ class C22(C.Check):
         plan = []
         stored = [(c["kind"], c["cfg"]) for c in ctx.corpus() if "cfg" in c]
         for kind, cfg in stored:
-            nts = [1, 2] if quick else [1, 2, 3]
+            nts = [1, 2, 3]
             plan += [(kind, cfg, nt) for nt in nts]
         # quick: per configuration the task counts that matter most -- a range that starts on the
         # mirrored member of a pair (4 entries over 3 tasks), an uneven split, more tasks than samples
@@ -285,7 +319,7 @@ class C22(C.Check):
         for cfg in okl_configs(rng, quick):
             if cfg.get("outdir"):
                 cfg["outdir"] = work
-            nts = ([1, 2] if 0 in cfg["sched"] else [1, 3]) if quick else [1, 2, 3, 4]
+            nts = ([1, 2, 3] if 0 in cfg["sched"] else [1, 3]) if quick else [1, 2, 3, 4]
             plan += [("okl", cfg, nt) for nt in nts]
         hist_cfgs = [{"counts": [3, 1], "mirror": True, "nonlinear": False}]
         if not quick:
@@ -302,6 +336,11 @@ class C22(C.Check):
             cfg.update({"n_samples": 2, "nonlinear": False, "seed": int(rng.integers(1, 10 ** 6)),
                         "dir": os.path.join(ctx.run_dir(), "hist_p%d" % os.getpid())})
             plan += [("err", cfg, nt) for nt in ([1, 2] if quick else [1, 2, 3, 4])]
+        # lists whose leading task(s) are empty
+        empty_cfgs = [{"n": 3, "lead": 1}] if quick else [{"n": 3, "lead": 1}, {"n": 1, "lead": 2}, {"n": 4, "lead": 2}, {"n": 2, "lead": 3}]
+        for cfg in empty_cfgs:
+            cfg.update({"seed": int(rng.integers(1, 10 ** 6)), "dir": os.path.join(ctx.run_dir(), "hist_p%d" % os.getpid())})
+            plan += [("empty", cfg, nt) for nt in ([1, 2, 3] if quick else [1, 2, 3, 4])]
         timeout = 400 if quick else 900
 
         def one(item):
@@ -371,6 +410,7 @@ class C22(C.Check):
                                    "optimize_kl_runs": sum(1 for r in self.runs if r["kind"] == "okl"),
                                    "history_runs": sum(1 for r in self.runs if r["kind"] == "hist"),
                                    "error_path_runs": sum(1 for r in self.runs if r["kind"] == "err"),
+                                   "empty_leading_task_runs": sum(1 for r in self.runs if r["kind"] == "empty"),
                                    "task_counts": sorted({r["ntask"] for r in self.runs})},
             "disagreements": len(bad), "exhaustive": False, "seconds_in_forked_runs": self.t_runs,
             "partial": "real MPI is not available (no libmpi): a process-based fake communicator with mpi4py semantics is used",
@@ -395,7 +435,9 @@ class C22(C.Check):
                     out.append((sig, "%s list save(overwrite=False) with stale file %s on %d tasks: outcomes per task %r, single process: %s -- a failure on some tasks must surface on all tasks with the same exception class" % (
                         cfg["list"], cfg["stale"], r["ntask"], outs, want), {"kind": r["kind"], "cfg": cfg, "ntask": r["ntask"]}))
                 continue
-            if r["kind"] == "hist":
+            if r["kind"] == "empty":
+                sig = {"fn": "distributed SampleList", "mode": "empty leading tasks"}
+            elif r["kind"] == "hist":
                 sig = {"fn": "sample list save/overwrite/load history", "mode": "decreasing counts"}
             else:
                 mode = "MAP" if (r["kind"] == "okl" and 0 in cfg["sched"]) else ("geoVI" if cfg["geo"] else "MGVI")
@@ -434,7 +476,7 @@ class C22(C.Check):
         if cfg.get("outdir"):
             cfg["outdir"] = os.path.join(ctx.run_dir(), "replay_okl_p%d" % os.getpid())
             shutil.rmtree(cfg["outdir"], ignore_errors=True)
-        if i["kind"] in ("hist", "err"):
+        if i["kind"] in ("hist", "err", "empty"):
             cfg["dir"] = os.path.join(ctx.run_dir(), "replay_hist_p%d" % os.getpid())
         runs = [{"kind": i["kind"], "cfg": cfg, "ntask": nt, "res": run_cfg(i["kind"], cfg, nt, 600)} for nt in sorted({1, i["ntask"]})]
         return bool(self._judge(runs))
